@@ -69,7 +69,7 @@ Definition chunks_of (p : payload) : list bytes :=
   | PBytes b => [b]
   | PAddrs a => addr_chunks a
   | PTlv k v | PPair k v => [[k]; be16 (lenN v); v]
-  | PSection b => [b]
+  | PSection b _ => [b]
   | PType t => [[type_code t]]
   end.
 Definition ret_of (p : payload) : N :=
@@ -78,7 +78,7 @@ Definition ret_of (p : payload) : N :=
   | PBytes b => lenN b
   | PAddrs a => addresses_len a
   | PTlv k v | PPair k v => MINIMUM_TLV_LENGTH + lenN v
-  | PSection b => lenN b
+  | PSection b _ => lenN b
   | PType t => 1
   end.
 
@@ -90,7 +90,7 @@ Lemma write_to_chunks p w :
   | (false, w') => (None, w')
   end.
 Proof.
-  destruct p as [wd v|b|a|k v|k v|b|t]; cbn [write_to oversize chunks_of ret_of write_chunks]; unfold U16_MAX.
+  destruct p as [wd v|b|a|k v|k v|b off|t]; cbn [write_to oversize chunks_of ret_of write_chunks]; unfold U16_MAX.
   - destruct (write_all w _); reflexivity.
   - destruct (65535 <? lenN b); [reflexivity|]. destruct (write_all w b); reflexivity.
   - destruct (write_chunks (addr_chunks a) w) as [[|] w']; reflexivity.
@@ -123,7 +123,7 @@ Proof. destruct t; reflexivity. Qed.
 
 Lemma concat_chunks_enc p : concat (chunks_of p) = enc_payload p.
 Proof.
-  destruct p as [wd v|b|a|k v|k v|b|t]; cbn [chunks_of enc_payload concat]; rewrite ?app_nil_r; try reflexivity.
+  destruct p as [wd v|b|a|k v|k v|b off|t]; cbn [chunks_of enc_payload concat]; rewrite ?app_nil_r; try reflexivity.
   - unfold int_be_bytes, twos. apply be_bytes_spec.
   - destruct a; cbn [addr_chunks enc_addrs concat]; rewrite ?app_nil_r; reflexivity.
 Qed.
@@ -142,7 +142,7 @@ Qed.
 
 Lemma ret_of_enc p : wf_payload p = true -> ret_of p = lenN (enc_payload p).
 Proof.
-  destruct p as [wd v|b|a|k v|k v|b|t]; cbn [ret_of enc_payload wf_payload]; intros H; try reflexivity.
+  destruct p as [wd v|b|a|k v|k v|b off|t]; cbn [ret_of enc_payload wf_payload]; intros H; try reflexivity.
   - unfold int_be_bytes. now rewrite be_bytes_spec.
   - now apply wf_addresses_len.
   - unfold enc_tlv, MINIMUM_TLV_LENGTH. rewrite !lenN_cons. lia.
@@ -188,6 +188,11 @@ Proof.
 Qed.
 
 Theorem tlv_pair_same k v : enc_payload (PTlv k v) = enc_payload (PPair k v) /\ forall w, write_to (PTlv k v) w = write_to (PPair k v) w.
+Proof. split; reflexivity. Qed.
+
+(* a TLV section encodes to all of its bytes, wherever its iteration cursor stands *)
+Theorem section_cursor_irrelevant b off1 off2 : enc_payload (PSection b off1) = enc_payload (PSection b off2)
+  /\ forall w, write_to (PSection b off1) w = write_to (PSection b off2) w.
 Proof. split; reflexivity. Qed.
 
 (* integers: big-endian at their natural width, two's complement *)
